@@ -6,9 +6,10 @@ from common import Some, Nat, Raw, opt, coq
 LEVEL = "proof"
 COQ_IMPORTS = ["Tie.C10"]
 RULE = ("sections generated as the envelope of circles with a known radius law (maximum thickness 4-20% of chord at 25-60% of the camber length, "
-        "end radii 0.5-3% of chord) along a known parabolic camber curve (0-8% camber), chord 0.3..100, 150-600 vertices, both windings, rotated "
+        "end radii 0.5-3% of chord) along a known camber curve (parabolic with 0-8% camber, or - one case in five - straight with a 90-120 degree bend aft of the maximum thickness), chord 0.3..100, 150-600 vertices, both windings, rotated "
         "start vertex, arbitrary rigid pose; every CamberOrient x the applicable EdgeLocate methods x both FaceOrient; container logic on synthetic "
-        "station lists with random push histories. distinct = distinct (tag, input)")
+        "station lists with random push histories; both orientation implementations on synthetic station lists (2-25 stations along straight, arced and hooked "
+        "centre lines, largest circle at 20-80% of the length, either list order, random directions); seven thickness gauges per analysed section. distinct = distinct (tag, input)")
 TRUSTED_BASE = [
     "Coq 8.16.1 kernel and vm_compute",
     "hand-written model coq/Model/Airfoil.v of the container and ordering logic (OrientedCircles push/last/take, reverse_inscribed_circles, find_tmax_circle), tied by differential correspondence Tie/C10.v through the public airfoil::helpers API",
@@ -68,6 +69,82 @@ def section(chord, camber, tmax, xt, r_end, n, ccw, roll, pose, open_end=None):
     return [[ca * px - sa * py + tx, sa * px + ca * py + ty] for px, py in pts], dict(r=r, y=y, yp=yp, c=c)
 
 
+def hook_curve(L, bend):
+    """camber curve by arc length: straight for 0.5 L, a circular arc turning left by `bend` over 0.25 L, straight for 0.25 L"""
+    a, larc = 0.5 * L, 0.25 * L
+    R = larc / bend
+    ex, ey = a + R * math.sin(bend), R * (1 - math.cos(bend))
+    def CT(u):
+        u = max(0.0, min(L, u))
+        if u <= a:
+            return (u, 0.0), (1.0, 0.0)
+        if u <= a + larc:
+            th = (u - a) / R
+            return (a + R * math.sin(th), R * (1 - math.cos(th))), (math.cos(th), math.sin(th))
+        w = u - a - larc
+        return (ex + w * math.cos(bend), ey + w * math.sin(bend)), (math.cos(bend), math.sin(bend))
+    return CT
+
+
+def section_hook(chord, tmax, xt, r_end, n, ccw, roll, pose, bend, family="hook", camber=0.0, open_end=None):
+    """closed polyline: envelope of circles of radius r(s) centred on a hooked camber curve of length `chord`"""
+    L = chord
+    CT = hook_curve(L, bend)
+    p = math.log(0.5) / math.log(xt)
+    def r(u):
+        w = max(0.0, min(1.0, u / L)) ** p
+        return r_end * L + (tmax * L / 2 - r_end * L) * math.sin(math.pi * w) ** 2
+    def env(u, sign):
+        h = 1e-6 * L
+        rs = (r(min(L, u + h)) - r(max(0.0, u - h))) / (min(L, u + h) - max(0.0, u - h))
+        rs = max(-0.999, min(0.999, rs))
+        (cx, cy), T = CT(u)
+        Nn = (-T[1], T[0])
+        k = math.sqrt(1 - rs * rs)
+        return [cx + r(u) * (-rs * T[0] + sign * k * Nn[0]), cy + r(u) * (-rs * T[1] + sign * k * Nn[1])]
+    m = n // 2
+    us = [L * 0.5 * (1 - math.cos(math.pi * i / m)) for i in range(m + 1)]
+    upper = [env(u, 1) for u in us]
+    lower = [env(u, -1) for u in us]
+    def cap(c0, a0, a1, k):
+        return [[c0[0] + r_end * L * math.cos(a0 + (a1 - a0) * i / k), c0[1] + r_end * L * math.sin(a0 + (a1 - a0) * i / k)] for i in range(1, k)]
+    (c1, t1), (c0, t0) = CT(L), CT(0.0)
+    gte, gle = math.atan2(t1[1], t1[0]), math.atan2(t0[1], t0[0])
+    te = cap(c1, gte + math.pi / 2, gte - math.pi / 2, 12)
+    le = cap(c0, gle - math.pi / 2, gle - 3 * math.pi / 2, 12)
+    pts = upper + te + lower[::-1] + le
+    if ccw:
+        pts = pts[::-1]
+    k = roll % len(pts)
+    pts = pts[k:] + pts[:k]
+    ang, tx, ty = pose
+    ca, sa = math.cos(ang), math.sin(ang)
+    samples = [CT(L * i / 2000.0)[0] for i in range(2001)]
+    return [[ca * px - sa * py + tx, sa * px + ca * py + ty] for px, py in pts], dict(r=r, c=L, samples=samples)
+
+
+def camber_param(spec, law, p):
+    """a point given in the section's own (unposed) frame -> (position along the camber curve, distance from it)"""
+    if spec.get("family") == "hook":
+        sm = law["samples"]
+        j = min(range(len(sm)), key=lambda i: (sm[i][0] - p[0]) ** 2 + (sm[i][1] - p[1]) ** 2)
+        best = (math.dist(sm[j], p), law["c"] * j / (len(sm) - 1.0))
+        for a in (j - 1, j):
+            if 0 <= a < len(sm) - 1:
+                v = [sm[a + 1][0] - sm[a][0], sm[a + 1][1] - sm[a][1]]
+                w = [p[0] - sm[a][0], p[1] - sm[a][1]]
+                t = max(0.0, min(1.0, (v[0] * w[0] + v[1] * w[1]) / (v[0] ** 2 + v[1] ** 2)))
+                q = [sm[a][0] + t * v[0], sm[a][1] + t * v[1]]
+                if math.dist(q, p) < best[0]:
+                    best = (math.dist(q, p), law["c"] * (a + t) / (len(sm) - 1.0))
+        return best[1], best[0]
+    return p[0], abs(p[1] - law["y"](p[0]))
+
+
+def make_section(spec):
+    return section_hook(**spec) if spec.get("family") == "hook" else section(**spec)
+
+
 def gen_analyze(rng):
     chord = rng.choice([0.3, 1.0, 1.0, 25.0, 100.0])
     spec = {"chord": chord, "camber": rng.choice([0.0, 0.02, 0.05, 0.08]), "tmax": rng.choice([0.04, 0.08, 0.12, 0.2]), "xt": rng.choice([0.25, 0.3, 0.4, 0.5, 0.6]),
@@ -76,7 +153,12 @@ def gen_analyze(rng):
     if spec["r_end"] * 2 >= spec["tmax"] * 0.8:
         spec["r_end"] = spec["tmax"] * 0.1
     spec["open_end"] = rng.choice([None, None, None, "te", "le"])
-    pts, _ = section(**spec)
+    if rng.random() < 0.2:
+        # hooked camber: straight, then a sharp left bend aft of the maximum thickness, which sits before the middle of the
+        # camber length although it is nearer (in a straight line) to the trailing end
+        spec = {"family": "hook", "chord": chord, "camber": 0.0, "tmax": rng.choice([0.08, 0.1]), "xt": 0.42, "r_end": 0.01, "n": rng.choice([300, 600]),
+                "ccw": rng.random() < 0.5, "roll": rng.randrange(600), "pose": spec["pose"], "bend": rng.choice([math.pi / 2, 2 * math.pi / 3]), "open_end": None}
+    pts, _ = make_section(spec)
     ang = spec["pose"][0]
     fwd = [-math.cos(ang), -math.sin(ang)]            # towards the leading edge (x = 0 end)
     up = [-math.sin(ang), math.cos(ang)]
@@ -99,16 +181,46 @@ def gen_oriented(rng):
     return {"k": "c10.oriented", "init": [st() for _ in range(rng.choice([0, 1, 3, 8]))], "reversed": rng.random() < 0.5, "pushes": [st() for _ in range(rng.randint(0, 5))]}
 
 
+def gen_orient(rng):
+    """synthetic stations along straight, arced and hooked centre lines; the largest circle anywhere along them"""
+    n = rng.choice([2, 3, 6, 12, 25])
+    L = rng.choice([1.0, 10.0])
+    kind = rng.choice(["line", "arc", "hook", "hook"])
+    CT = hook_curve(L, rng.choice([math.pi / 2, 2 * math.pi / 3, 2.5])) if kind == "hook" else None
+    us = sorted(rng.uniform(0, L) for _ in range(n))
+    us[0], us[-1] = 0.0, L
+    if n == 2 and rng.random() < 0.3:
+        us[1] = 0.0             # coincident centres: no camber curve
+    peak = rng.choice([0.2, 0.42, 0.47, 0.53, 0.58, 0.8]) * L
+    ang, tx, ty = rng.uniform(-3, 3), rng.uniform(-5, 5) * L, rng.uniform(-5, 5) * L
+    ca, sa = math.cos(ang), math.sin(ang)
+    sts = []
+    for u in us:
+        if kind == "line":
+            x, y = u, 0.0
+        elif kind == "arc":
+            x, y = L * math.sin(u / L), L * (1 - math.cos(u / L))
+        else:
+            (x, y), _ = CT(u)
+        r = 0.01 * L + 0.05 * L * max(0.0, 1 - abs(u - peak) / L)
+        sts.append([ca * x - sa * y + tx, sa * x + ca * y + ty, r, rng.random() < 0.5])
+    if rng.random() < 0.5:
+        sts.reverse()
+    return {"k": "c10.orient", "init": sts, "orient": rng.choice(["tmax", [rng.uniform(-1, 1), rng.uniform(-1, 1)]])}
+
+
 def corpus():
     return []
 
 
 def generate(rng, tier):
     n = 50 if tier == "quick" else 600
-    return [gen_analyze(rng) for _ in range(n)] + [gen_oriented(rng) for _ in range(2 * n)]
+    return [gen_analyze(rng) for _ in range(n)] + [gen_oriented(rng) for _ in range(2 * n)] + [gen_orient(rng) for _ in range(2 * n)]
 
 
 def tag(c, r):
+    if c["k"] == "c10.orient":
+        return "%s:%s:%d:%s" % (c["k"], "tmax" if c["orient"] == "tmax" else "dir", len(c["init"]), "err" if r.get("err") else "panic" if r.get("panic") else "ok")
     if c["k"] == "c10.oriented":
         return "%s:%s:%d" % (c["k"], c["reversed"], len(c["pushes"]))
     st = "timeout" if r.get("timeout") else "panic" if r.get("panic") else "err" if r.get("err") else "ok"
@@ -124,6 +236,14 @@ def stv(o):
 
 
 def coq_check(c, r):
+    if c["k"] == "c10.orient":
+        if r.get("panic"):
+            return None
+        init = coq([stv(o) for o in r["init"]])
+        out = coq([stv(o) for o in r.get("out", [])])
+        if c["orient"] == "tmax":
+            return "check_orient_tmax %s %s %s" % (init, coq("out" in r), out)
+        return "check_orient_dir %s %s %s %s" % (coq(T(c["orient"])), init, coq("out" in r), out)
     if c["k"] != "c10.oriented":
         return None
     # the synthetic stations as the implementation built them (r["init"]); pushes rebuilt the same way
@@ -164,11 +284,47 @@ def oracle(c, r):
         if len(r["taken"]) != want:
             yield ("oriented-count", "%d stations after %d pushes onto %d" % (len(r["taken"]), len(c["pushes"]), len(r["init"])))
         return
+    if c["k"] == "c10.orient":
+        if r.get("panic"):
+            yield ("orient-panic", "orient_camber_line panicked on %d stations" % len(c["init"]))
+            return
+        if "out" not in r:
+            return
+        ini, out = r["init"], r["out"]
+        cs = [o["c"] for o in ini]
+        same = [o["c"] for o in out] == cs
+        rev = [o["c"] for o in out] == cs[::-1]
+        if not (same or rev):
+            yield ("orient-permutes", "orient_camber_line returned centres %r for %r" % ([o["c"] for o in out], cs))
+            return
+        if c["orient"] == "tmax":
+            # independent computation: arc-length position of the closest point of the centre polyline to the largest centre
+            k = max(range(len(ini)), key=lambda i: (ini[i]["r"], -i))
+            best, acc, tot = None, 0.0, sum(math.dist(a, b) for a, b in zip(cs, cs[1:]))
+            for a, b in zip(cs, cs[1:]):
+                d = seg_dist(cs[k], a, b)
+                v = [b[0] - a[0], b[1] - a[1]]
+                w = [cs[k][0] - a[0], cs[k][1] - a[1]]
+                vv = v[0] ** 2 + v[1] ** 2
+                t = 0.0 if vv == 0 else max(0.0, min(1.0, (v[0] * w[0] + v[1] * w[1]) / vv))
+                if best is None or d < best[0]:
+                    best = (d, acc + t * math.sqrt(vv))
+                acc += math.sqrt(vv)
+            f = best[1] / tot if tot > 0 else 0.0
+            if abs(f - 0.5) > 1e-6 and (f > 0.5) != (rev and not same):
+                yield ("orient-tmax", "TMaxFwd on %d stations: the largest circle (station %d) sits at %r of the camber length, the list came back %s" % (
+                    len(ini), k, f, "reversed" if rev and not same else "unchanged"))
+        else:
+            d = c["orient"]
+            a, b = d[0] * out[0]["c"][0] + d[1] * out[0]["c"][1], d[0] * out[-1]["c"][0] + d[1] * out[-1]["c"][1]
+            if a < b - 1e-9 * (abs(a) + abs(b) + 1):
+                yield ("orient-direction", "DirectionFwd(%r): the first centre %r is behind the last %r along the direction" % (d, out[0]["c"], out[-1]["c"]))
+        return
     if c["k"] != "c10.analyze":
         return
     spec = c["spec"]
     chord = spec["chord"]
-    what = "analysis of a generated section (chord %r, camber %r, tmax %r at %r, end radius %r, %d vertices, %s, leading=%s trailing=%s orient=%s face=%s)" % (
+    what = "analysis of a generated " + ("hooked " if spec.get("family") == "hook" else "") + "section (chord %r, camber %r, tmax %r at %r, end radius %r, %d vertices, %s, leading=%s trailing=%s orient=%s face=%s)" % (
         chord, spec["camber"], spec["tmax"], spec["xt"], spec["r_end"], len(c["pts"]), "ccw" if spec["ccw"] else "cw", c["leading"], c["trailing"],
         "tmax" if c["orient"] == "tmax" else "dir", "detect" if c["face"] == "detect" else "dir")
     if r.get("err_section"):
@@ -198,6 +354,12 @@ def oracle(c, r):
     # 1. inscribed circles
     for i, s in enumerate(st):
         d = dist_poly(s["c"], sec)
+        forged = (i == 0 and c["leading"] == "const") or (i == len(st) - 1 and c["trailing"] == "const")
+        if abs(d - s["r"]) > 10 * tol and forged:
+            # ConstRadiusEdge manufactures its end station from the smallest arc that fits five or more section vertices within the
+            # tolerance; on densely sampled sections that need not be the edge arc
+            yield ("const-edge-station-not-inscribed", what + ": the end station manufactured by ConstRadiusEdge (centre %r, radius %r) is %r from the section" % (s["c"], s["r"], d))
+            return
         if abs(d - s["r"]) > 10 * tol:
             yield ("station-inscribed", what + ": station %d centre %r is %r from the section, radius %r" % (i, s["c"], d, s["r"]))
             return
@@ -208,15 +370,16 @@ def oracle(c, r):
     # 2. generated medial axis: map centres back to the generating frame
     ang, tx, ty = spec["pose"]
     ca, sa = math.cos(ang), math.sin(ang)
-    _, law = section(**spec)
+    _, law = make_section(spec)
+    hook = spec.get("family") == "hook"
     xs = []
     worst_c, worst_r = 0.0, 0.0
     for s in st:
         px, py = s["c"][0] - tx, s["c"][1] - ty
-        x, yy = ca * px + sa * py, -sa * px + ca * py
+        x, off = camber_param(spec, law, [ca * px + sa * py, -sa * px + ca * py])
         xs.append(x)
         if 0.02 * chord < x < 0.98 * chord:
-            worst_c = max(worst_c, abs(yy - law["y"](x)))
+            worst_c = max(worst_c, off)
             worst_r = max(worst_r, abs(s["r"] - law["r"](x)))
     # contacts on opposite sides of the camber direction (away from the end caps, where every direction is a contact)
     for i in range(1, len(st) - 1):
@@ -242,7 +405,7 @@ def oracle(c, r):
         yield ("stations-monotone", what + ": stations do not advance monotonically along the camber curve")
     elif c["orient"] != "tmax" and not inc:
         yield ("stations-direction", what + ": stations run from the trailing to the leading edge although the forward direction was given")
-    elif c["orient"] == "tmax" and spec["xt"] <= 0.4 and not inc:
+    elif c["orient"] == "tmax" and spec["xt"] <= (0.45 if hook else 0.4) and not inc:
         yield ("stations-direction", what + ": maximum thickness is at %r of the chord but stations start at the far end" % spec["xt"])
     # maximum thickness recovered
     if abs(2 * r["tmax"]["r"] - tm) > 0.02 * tm + 5 * tol:
@@ -293,7 +456,7 @@ def oracle(c, r):
                 yield ("gauge-camber-point", gw + ": the gauge line %r - %r passes %r from the camber point %r at that length" % (a, b, seg_dist(cp, a, b), cp))
             elif cp is not None and inc:
                 px, py = cp[0] - tx, cp[1] - ty
-                gx = ca * px + sa * py
+                gx, _ = camber_param(spec, law, [ca * px + sa * py, -sa * px + ca * py])
                 h = 1e-4 * chord
                 if 0.15 * chord < gx < 0.85 * chord and abs(law["r"](gx + h) - law["r"](gx - h)) / (2 * h) < 0.1:
                     if abs(math.dist(a, b) - 2 * law["r"](gx)) > 0.05 * tm + 5 * tol:
@@ -307,7 +470,7 @@ def oracle(c, r):
             yield ("edge-on-section", what + ": %s edge point %r is %r from the section" % (nm, e["p"], dist_poly(e["p"], sec)))
         if math.dist(e["p"], end) > 1e-6 * chord:
             yield ("edge-camber-end", what + ": %s edge point %r is not the %s end of the camber curve %r" % (nm, e["p"], "first" if nm == "leading" else "last", end))
-    if inc and r["le"] is not None and r["te"] is not None:
+    if inc and r["le"] is not None and r["te"] is not None and not hook:
         lx = (lambda p: ca * (p[0] - tx) + sa * (p[1] - ty))
         if lx(r["le"]["p"]) > lx(r["te"]["p"]):
             yield ("edge-swapped", what + ": leading edge %r lies beyond the trailing edge %r along the chord" % (r["le"]["p"], r["te"]["p"]))
@@ -318,6 +481,6 @@ def oracle(c, r):
             yield ("faces-partition", what + ": upper %r + lower %r != perimeter %r" % (up["length"], lo["length"], r["perimeter"]))
         upv = [-sa, ca]
         mean = lambda cv: sum(p[0] * upv[0] + p[1] * upv[1] for p in cv["points"]) / len(cv["points"])
-        if spec["camber"] > 0 or c["face"] != "detect":
+        if (spec["camber"] > 0 or c["face"] != "detect") and not hook:
             if mean(up) < mean(lo):
                 yield ("faces-side", what + ": the surface reported as upper lies below the lower one along the upper direction")
